@@ -38,7 +38,7 @@ def run(chk):
   chk.notes['mirror_counterexample'] = [s['state'].get('act') for s in (r.error_trace or [])]
   hits = {}
   plan = [('C09_sim.cfg', 400, 30), ('C09_sim_dl.cfg', 300, 30), ('C09_sim_oc.cfg', 150, 30), ('C09_sim_sd.cfg', 300, 30)] if not thorough else \
-         [('C09_sim.cfg', 4000, 40), ('C09_sim_dl.cfg', 3000, 40), ('C09_sim_oc.cfg', 2000, 40), ('C09_sim_sd.cfg', 3000, 40)]
+         [('C09_sim.cfg', 2500, 40), ('C09_sim_dl.cfg', 1500, 40), ('C09_sim_oc.cfg', 1000, 40), ('C09_sim_sd.cfg', 2000, 40)]
   for cfg, num, depth in plan:
     h = symtree_check.replay_simulated(chk, cfg, CLAUSES, num, depth, chk.seed, batches=1 if not thorough else 8)
     for k, v in h.items():
@@ -49,7 +49,7 @@ def run(chk):
     hits[kk] = hits.get(kk, 0) + v
   # every slice / in-place / batched transition from every list of <= 3 members (events of multi-element slice writes)
   h = symtree_check.replay_transitions(chk, 'C09_states_l.cfg', 'C09_step_l.cfg', CLAUSES, seed=chk.seed,
-                                       max_transitions=2500 if not thorough else None)
+                                       max_transitions=2500 if not thorough else 20000)
   for kk, v in h.items():
     hits[kk] = hits.get(kk, 0) + v
   chk.notes['action_outcome_hits'] = dict(sorted(hits.items()))
